@@ -60,16 +60,26 @@ Eval(ix) == Fr("eval", ix, 0, 0)
 NoIx == Ix(0, <<>>)
 Running == [st |-> "run", kind |-> "", at |-> NoIx, chain |-> <<>>]
 
+NativeBacked == {"std.min", "std.max", "std.sorted", "std.to_array", "std.min_by_key", "std.max_by_key", "std.sorted_by_key"}
+
 \* ---- results of a step ------------------------------------------------------------
 Finish(m) == [m EXCEPT !.k = <<>>, !.out = [Running EXCEPT !.st = "ok"]]
 Unspecified(m) == [m EXCEPT !.k = <<>>, !.out = [Running EXCEPT !.st = "unspec"]]
 Chain(m) == [j \in 1..(Len(m.fr) - 1) |-> m.fr[Len(m.fr) + 1 - j].callix]
-NativeBacked == {"std.min", "std.max", "std.sorted", "std.to_array", "std.min_by_key", "std.max_by_key", "std.sorted_by_key"}
-\* an error raised while a native-backed library function is calling back into the script surfaces
-\* as a failure of that host task
-Fail(m, kind, ix) ==
-  LET wrapped == \E j \in 1..Len(m.k) : m.k[j].op = "std" /\ m.k[j].s \in NativeBacked IN
-  [m EXCEPT !.k = <<>>, !.out = [st |-> "err", kind |-> IF wrapped THEN "TaskFailure" ELSE kind, at |-> ix, chain |-> Chain(m)]]
+\* an error raised while a host function (a native-backed library function or a re-entering host
+\* function) is calling back into the script surfaces as a failure of the OUTERMOST such host task
+Wrappers(m) == {j \in 1..Len(m.k) : (m.k[j].op = "std" /\ m.k[j].s \in NativeBacked) \/ m.k[j].op = "hostret"}
+WrapName(f) == IF f.op = "hostret" THEN f.s
+               ELSE CASE f.s \in {"std.min", "std.min_by_key"} -> "__min" [] f.s \in {"std.max", "std.max_by_key"} -> "__max"
+                      [] f.s \in {"std.sorted", "std.sorted_by_key"} -> "__sort" [] OTHER -> "__to_array"
+NoTask == [name |-> "", inner |-> "", params |-> {}]
+Raise(m, kind, ix, task) ==
+  LET w == Wrappers(m) IN
+  IF w = {} THEN [m EXCEPT !.k = <<>>, !.out = [st |-> "err", kind |-> kind, at |-> ix, chain |-> Chain(m)], !.task = task]
+  ELSE LET j == CHOOSE j \in w : \A q \in w : j <= q IN
+       [m EXCEPT !.k = <<>>, !.out = [st |-> "err", kind |-> "TaskFailure", at |-> ix, chain |-> Chain(m)],
+                 !.task = [name |-> WrapName(m.k[j]), inner |-> kind, params |-> {}]]
+Fail(m, kind, ix) == Raise(m, kind, ix, NoTask)
 \* the top frame is finished and produced value x / no value
 Yield(m, x) == IF IsUnspec(x) THEN Unspecified(m) ELSE [m EXCEPT !.k = Pop(m.k), !.v = Append(m.v, x)]
 Done(m) == [m EXCEPT !.k = Pop(m.k)]
@@ -181,8 +191,35 @@ CallValue(m, fv, args, callix) ==
     [] fv.t = "clo" -> Invoke(m, m.clos[fv.i].ix, m.clos[fv.i].env, args, callix)
     [] OTHER -> Fail(m, "InvalidArgument", callix)
 
-\* host functions registered by the harness:  beh "log": record, return nil; "id": record, return the
-\* first argument; "fail": record, return an error
+\* ---- host functions (C18) --------------------------------------------------------------------
+\* natives: [name, arity, beh, types].  beh:
+\*   "log"   record the call, return nil          "id"   record, return the first argument
+\*   "fail"  record, return an error             "typed" convert every argument to its declared
+\*   parameter type (documented TryFrom<Value> conversions) or reject the call
+\*   "call"  re-enter: call the function value args[1] with the remaining arguments
+\* dyadic real truncated toward zero (Real -> i64 conversion)
+TruncDy(n, e) == IF n >= 0 THEN n \div Pow2(e) ELSE -((-n) \div Pow2(e))
+\* Conv: the value the host function receives for parameter type ty, or Unspec / "bad"
+Bad == Val("bad", 0, 0, "")
+Conv(m, ty, x) ==
+  CASE ty = "value" -> x
+    [] ty = "i64" -> (CASE x.t = "int" -> x [] x.t = "real" -> (IF IsTok(x) THEN Unspec ELSE VInt(TruncDy(x.i, x.e)))
+                        [] x.t = "nil" -> VInt(0) [] OTHER -> VInt(LenV(m, x)))
+    [] ty = "f64" -> (CASE x.t = "real" -> x [] x.t = "int" -> VReal(x.i, 0) [] x.t = "nil" -> VReal(0, 0)
+                        [] OTHER -> VReal(LenV(m, x), 0))
+    [] ty = "bool" -> (IF TruthV(m, x) = "U" THEN Unspec ELSE VBool(TruthV(m, x) = "T"))
+    [] ty = "str" -> (IF x.t = "str" THEN x ELSE Bad)
+    [] ty = "table" -> (IF x.t = "ref" THEN x ELSE Bad)
+    [] ty = "nilable_i64" -> (IF x.t = "nil" THEN VNil
+                              ELSE CASE x.t = "int" -> x [] x.t = "real" -> (IF IsTok(x) THEN Unspec ELSE VInt(TruncDy(x.i, x.e)))
+                                     [] OTHER -> VInt(LenV(m, x)))
+\* what a typed host function returns: a function of its first converted argument
+TypedResult(m, ty, x) ==
+  CASE ty = "str" -> VInt(x.i) [] ty = "table" -> VInt(TabLen(m, x))
+    [] ty = "nilable_i64" -> (IF x.t = "nil" THEN VInt(-1) ELSE x) [] OTHER -> x
+
+FailTask(m, name, inner, params, ix) == Raise(m, "TaskFailure", ix, [name |-> name, inner |-> inner, params |-> params])
+
 CallHost(m, name, args, callix) ==
   LET j == NatIndex(m.pi, name) IN
   IF j = 0 THEN Fail(m, "ProcedureNotFound", callix)
@@ -191,7 +228,20 @@ CallHost(m, name, args, callix) ==
        IF Len(args) # nat.arity THEN Unspecified(m)
        ELSE CASE nat.beh = "log" -> Yield(m2, VNil)
               [] nat.beh = "id" -> Yield(m2, args[1])
-              [] nat.beh = "fail" -> Fail(m2, "TaskFailure", callix)
+              [] nat.beh = "fail" -> FailTask(m2, name, "InvalidArgument", {}, callix)
+              [] nat.beh = "typed" ->
+                   LET cv == [q \in 1..Len(args) |-> Conv(m, nat.types[q], args[q])]
+                       bad == {q \in 1..Len(args) : cv[q].t = "bad"} IN
+                   IF \E q \in 1..Len(args) : IsUnspec(cv[q]) THEN Unspecified(m)
+                   \* a rejected call never reaches the host function: nothing is logged
+                   ELSE IF bad # {} THEN FailTask(m, name, "InvalidArgument", bad, callix)
+                   ELSE Yield([m EXCEPT !.log = Append(m.log, [name |-> name, args |-> [q \in 1..Len(args) |-> Deep(m, cv[q])]])],
+                              IF Len(args) = 0 THEN VNil ELSE TypedResult(m, nat.types[1], cv[1]))
+              [] nat.beh = "call" ->
+                   \* re-entry: the host pushes the remaining arguments and runs the function value
+                   [m EXCEPT !.k = Append(Append(Pop(m.k), FrS("hostret", callix, 0, Len(m.v), VNil, <<>>, name)),
+                                          [op |-> "callcb", ix |-> callix, n |-> 0, h |-> Len(m.v), x |-> args[1],
+                                           xs |-> Tail(args), s |-> ""])]
 
 CallValueOrNative(m, fv, args, callix) ==
   IF fv.t = "nat" THEN CallHost(m, fv.s, args, callix) ELSE CallValue(m, fv, args, callix)
@@ -423,6 +473,12 @@ StepM(m) ==
                   m6 == IF card.nm[1].s # "" THEN Bind(m5, card.nm[1].s, VInt(f.n)) ELSE m5 IN
               [m6 EXCEPT !.k = Append(Append(Append(Pop(m.k), [f EXCEPT !.n = f.n + 1]), Fr("endscope", ix, 0, f.h)), Eval(Child(ix, 1)))]
     [] f.op = "std" -> StdStep(m1, f)
+    [] f.op = "hostret" ->
+         \* the callee returned: its value is handed back to the host, which reports the balance of the
+         \* value stack and the call stack around the re-entry (0, 0) and returns the value to the script
+         IF Len(m.v) # f.h + 1 THEN Unspecified(m1)
+         ELSE Yield([m1 EXCEPT !.v = Take(m.v, f.h),
+                               !.log = Append(m.log, [name |-> f.s, args |-> <<Deep(m, Top(m.v)), VInt(0), VInt(0)>>])], Top(m.v))
     [] f.op = "callcb" -> CallValueOrNative(m1, f.x, f.xs, ix)
     [] f.op = "endscope" -> Done(PopScope([m1 EXCEPT !.v = Take(m.v, f.h)]))
 
@@ -431,7 +487,7 @@ MainIx(pi) == Ix(1, <<>>)            \* fns[1] is main
 InitM(pi) == [pi |-> pi, k |-> <<Fr("body", MainIx(pi), 0, 0)>>, v |-> <<>>,
               fr |-> <<[sc |-> <<<<>>>>, env |-> <<>>, callix |-> NoIx]>>,
               cells |-> <<>>, heap |-> <<>>, clos |-> <<>>, g |-> [x \in {} |-> VNil], log |-> <<>>,
-              out |-> Running, steps |-> 0]
+              out |-> Running, steps |-> 0, task |-> NoTask]
 Terminal(m) == m.k = <<>>
 \* the index as the crate reports it: function number within its module, namespace, path
 Loc(pi, ix) == IF ix.fn = 0 THEN [ns |-> <<>>, f |-> 0, p |-> <<>>]
@@ -439,6 +495,7 @@ Loc(pi, ix) == IF ix.fn = 0 THEN [ns |-> <<>>, f |-> 0, p |-> <<>>]
 Obs(m) == [globals |-> [x \in DOMAIN m.g |-> Deep(m, m.g[x])],
            log |-> m.log,
            st |-> m.out.st, kind |-> m.out.kind,
+           task |-> m.task,
            at |-> Loc(m.pi, m.out.at),
            chain |-> [j \in 1..Len(m.out.chain) |-> Loc(m.pi, m.out.chain[j])]]
 
